@@ -80,7 +80,16 @@ kYvE0yw3wGvzdg==
 // ---------------------------------------------------------------------------------------------
 // fixed key material (so that a case line replays without the run that produced it)
 
+// In the child process of a cold-start case (cold.go) nothing may touch the curve before the decoder under test:
+// the fixed keys stay nil there until a decoder that needs them asks for them (coldKeys).
 func fixedSM2(dhex string) *sm2.PrivateKey {
+	if coldMode() {
+		return nil
+	}
+	return buildSM2(dhex)
+}
+
+func buildSM2(dhex string) *sm2.PrivateKey {
 	c := sm2.P256Sm2()
 	d, _ := new(big.Int).SetString(dhex, 16)
 	priv := new(sm2.PrivateKey)
@@ -337,6 +346,8 @@ func rBits(b asn1.BitString) string {
 
 func call(f []string) string {
 	switch f[0] {
+	case "COLD":
+		return runCold(f)
 	case "A1G":
 		return a1gCall(f)
 	case "A1S":
@@ -1304,6 +1315,11 @@ func gen(seed uint64, tier string) []string {
 		id++
 		lines = append(lines, fmt.Sprintf("A1G %d %s %s", id, hx.Hex([]byte(name)), hx.Hex(data)))
 	})
+	// cold start: one decoder call per fresh child process (harness/cmd/c18/cold.go)
+	genCold(c, r, func(l string) {
+		id++
+		lines = append(lines, strings.Replace(l, "#", strconv.Itoa(id), 1))
+	})
 	// relative cost: size ladders of one shape per decoder (harness/cmd/c18/ladder.go)
 	// (quick: six of the shapes, rotating with the seed; thorough: all of them, up to 3 MB)
 	lnames := ladderNames()
@@ -1327,8 +1343,13 @@ func gen(seed uint64, tier string) []string {
 
 func main() {
 	// the library prints diagnostics (fmt.Printf) on some error paths: keep them out of the way
+	realStdout := os.Stdout
 	if null, err := os.OpenFile(os.DevNull, os.O_WRONLY, 0); err == nil {
 		os.Stdout = null
+	}
+	if coldMode() {
+		coldChild(realStdout)
+		return
 	}
 	if len(os.Args) >= 6 && os.Args[1] == "gen" {
 		seed, _ := strconv.ParseUint(os.Args[2], 10, 64)
